@@ -37,6 +37,8 @@ struct Ctx {
   explicit Ctx(const Plan &pl) : p(pl), aux(pl.seed ^ 0xA0C5) { kc.type = pl.cfg.cmp; model = Model(kc); }
 };
 
+void model_put(Model &m, const string &k, const string &v) { m.erase(k); m.emplace(k, v); }
+
 int live_iters(Ctx &c) { int n = 0; for (auto &i : c.its) if (i.it) n++; return n; }
 
 void check_get(Ctx &c, const string &k, const Model &m, const ldb_snapshot_t *s, const char *prop, const char *what) {
@@ -159,7 +161,7 @@ void do_op(Ctx &c, const Op &o, int idx) {
       ldb_writeopt_t wo; wo.sync = o.sync;
       int rc = ldb_put(c.db, &k, &vv, &wo);
       if (rc != LDB_OK) { violation("C01", "write_failed", "put failed: %s", rcname(rc)); return; }
-      c.model[o.key] = v;
+      model_put(c.model, o.key, v);
       check_get(c, o.key, c.model, nullptr, "C01", "after put");
       break;
     }
@@ -175,7 +177,7 @@ void do_op(Ctx &c, const Op &o, int idx) {
     case O_WRITE: {
       int rc = db_write(c.db, o.ups, o.sync);
       if (rc != LDB_OK) { violation("C01", "write_failed", "write failed: %s", rcname(rc)); return; }
-      for (auto &u : o.ups) { if (u.del) c.model.erase(u.key); else c.model[u.key] = mkval(u.tag, u.len, u.fill); }
+      for (auto &u : o.ups) { if (u.del) c.model.erase(u.key); else model_put(c.model, u.key, mkval(u.tag, u.len, u.fill)); }
       if (!o.ups.empty()) check_get(c, o.ups[c.aux.below(o.ups.size())].key, c.model, nullptr, "C01", "after write");
       break;
     }
@@ -221,6 +223,7 @@ void do_op(Ctx &c, const Op &o, int idx) {
       }
       break;
     case O_ITER_OP:
+      if (o.a >= 0 && o.a < NITER && !c.its[o.a].it) { Op mk; mk.kind = O_ITER_NEW; mk.a = o.a; mk.b = (int)(o.tag % 9) < NSNAP ? (int)(o.tag % 9) : -1; do_op(c, mk, idx); }
       if (o.a >= 0 && o.a < NITER && c.its[o.a].it) {
         It &I = c.its[o.a];
         Model &V = I.view;
@@ -373,7 +376,7 @@ Plan gen_model(uint64_t seed, const string &prop) {
   auto sw = [&](double base) { static const double f[] = {0, 0.5, 1, 1, 2, 4}; return base * r.pick(f); };
   w[O_PUT] = 30 * (0.5 + r.unit()); w[O_DEL] = sw(8); w[O_WRITE] = sw(7); w[O_GET] = sw(8); w[O_SNAP] = sw(3); w[O_RELEASE] = sw(2);
   w[O_ITER_NEW] = sw(3); w[O_ITER_OP] = sw(14); w[O_ITER_FREE] = sw(1.5); w[O_FLUSH] = sw(3); w[O_COMPACT_RANGE] = sw(5); w[O_COMPACT] = sw(1);
-  w[O_APPROX] = sw(0.5); w[O_PROPERTY] = sw(0.5); w[O_REOPEN] = sw(1.5); w[O_KILL_RESTART] = sw(1); w[O_SWEEP] = sw(1);
+  w[O_APPROX] = sw(0.5); w[O_PROPERTY] = sw(0.5); w[O_REOPEN] = sw(0.6); w[O_KILL_RESTART] = sw(0.5); w[O_SWEEP] = sw(1);
   if (prop == "C06") { w[O_SNAP] += 4; w[O_COMPACT_RANGE] += 5; w[O_GET] += 6; w[O_DEL] += 4; }
   if (prop == "C07") { w[O_ITER_NEW] += 3; w[O_ITER_OP] += 25; w[O_DEL] += 5; w[O_FLUSH] += 2; }
   if (prop == "C13") { w[O_ITER_NEW] += 3; w[O_FLUSH] += 4; w[O_COMPACT_RANGE] += 5; w[O_KILL_RESTART] += 1.5; w[O_REOPEN] += 1; w[O_ITER_FREE] += 1; }
@@ -381,9 +384,31 @@ Plan gen_model(uint64_t seed, const string &prop) {
   if (prop == "C17") { w[O_REOPEN] += 3; w[O_KILL_RESTART] += 2; w[O_FLUSH] += 3; w[O_COMPACT_RANGE] += 4; }
   double tot = 0; for (double x : w) tot += x;
   uint64_t tag = 1;
-  auto key = [&]() { return keys[r.below(keys.size())]; };
+  // workload styles: 0 generic; 1 locality (keys drawn from a small moving window, so flushed files are narrow and
+  // overlap partially; ranged compactions); 2 hot key (one key receives many large versions pinned by snapshots, so a
+  // compaction cuts its output inside that key)
+  int style_draw = (int)r.below(20);
+  int style = style_draw < 12 ? 0 : style_draw < 18 ? 1 : 2;
+  p.seti("style", style);
+  size_t win_base = 0, win_width = (size_t)r.range(2, 6);
+  string hot = keys[keys.size() / 2];
+  if (style == 1) { w[O_FLUSH] += 5; w[O_COMPACT_RANGE] += 7; w[O_COMPACT] += 2; w[O_KILL_RESTART] *= 0.3; w[O_REOPEN] *= 0.5; }
+  if (style == 2) { w[O_FLUSH] += 3; w[O_COMPACT_RANGE] += 8; w[O_SNAP] += 6; w[O_RELEASE] *= 0.3; w[O_KILL_RESTART] *= 0.2; w[O_REOPEN] *= 0.3; nops = std::min(nops, 160); p.cfg.wbs = r.chance(0.5) ? 65536 : (4 << 20); }
+  tot = 0; for (double x : w) tot += x;
+  auto casevar = [&](string k) { if (p.cfg.cmp == 3 && r.chance(0.5)) for (auto &ch : k) if (isalpha((unsigned char)ch) && r.chance(0.5)) ch = (char)(ch ^ 0x20); return k; };
+  auto key = [&]() -> string {
+    if (style == 1) { if (r.chance(0.08)) win_base = (size_t)r.below(keys.size()); return casevar(keys[(win_base + r.below(win_width)) % keys.size()]); }
+    if (style == 2 && r.chance(0.35)) return casevar(hot);
+    return casevar(keys[r.below(keys.size())]);
+  };
+  auto near_key = [&](const string &k) -> string { // a key close to k in the sorted key space (for narrow compaction ranges)
+    size_t i = std::lower_bound(keys.begin(), keys.end(), k) - keys.begin();
+    long j = (long)i + (long)r.range(0, 4) - 2; if (j < 0) j = 0; if (j >= (long)keys.size()) j = (long)keys.size() - 1;
+    return keys[(size_t)j];
+  };
   auto vlen = [&]() -> uint32_t {
     int c = (int)r.below(100);
+    if (style == 2 && c >= 70) return (uint32_t)r.range(150000, 400000);
     if (c < 3) return 0;
     if (c < 10) return (uint32_t)r.range(1, 40);
     if (big_values && c >= 97) return (uint32_t)r.range(300000, 1200000);
@@ -395,7 +420,7 @@ Plan gen_model(uint64_t seed, const string &prop) {
     for (; k < O_NKINDS - 1; k++) { if (x < w[k]) break; x -= w[k]; }
     Op o; o.kind = k;
     switch (k) {
-      case O_PUT: o.key = key(); o.tag = tag++; o.len = vlen(); o.fill = (int)r.below(2); o.sync = r.chance(0.1); break;
+      case O_PUT: o.key = key(); o.tag = tag++; o.len = vlen(); if (style == 2 && o.key != hot && o.len > 100000) o.len = (uint32_t)r.range(100, 3000); o.fill = (int)r.below(2); o.sync = r.chance(0.1); break;
       case O_DEL: o.key = key(); o.sync = r.chance(0.1); break;
       case O_WRITE: {
         int n = r.chance(0.1) ? (int)r.range(20, 200) : (int)r.range(1, 8);
@@ -407,15 +432,15 @@ Plan gen_model(uint64_t seed, const string &prop) {
       case O_SNAP: case O_RELEASE: o.a = (int)r.below(NSNAP); break;
       case O_ITER_NEW: o.a = (int)r.below(NITER); o.b = r.chance(0.4) ? (int)r.below(NSNAP) : -1; break;
       case O_ITER_OP: {
-        o.a = (int)r.below(NITER); o.b = (int)r.below(I_NOPS);
+        o.a = (int)r.below(NITER); o.b = (int)r.below(I_NOPS); o.tag = r.below(9);
         if (r.chance(0.35)) o.b = r.chance(0.5) ? I_NEXT : I_PREV;
         int tt = (int)r.below(6);
         o.key = tt == 0 ? string() : tt == 1 ? string(3, '\xff') + "zz" : tt == 2 ? key() + "0" : tt == 3 ? string(1, '\x01') : key();
         break;
       }
       case O_ITER_FREE: o.a = (int)r.below(NITER); break;
-      case O_COMPACT_RANGE: o.a = (int)r.below(5); o.b = r.chance(0.4); if (o.b) { o.key = key(); o.key2 = key(); } break;
-      case O_COMPACT: o.b = r.chance(0.3); if (o.b) { o.key = key(); o.key2 = key(); } break;
+      case O_COMPACT_RANGE: o.a = (int)r.below(5); o.b = r.chance(style ? 0.7 : 0.4); if (o.b) { o.key = key(); o.key2 = style ? near_key(o.key) : key(); } break;
+      case O_COMPACT: o.b = r.chance(style ? 0.7 : 0.3); if (o.b) { o.key = key(); o.key2 = style ? near_key(o.key) : key(); } break;
       case O_APPROX: o.key = key(); o.key2 = key(); break;
       case O_PROPERTY: o.a = (int)r.below(5); break;
       case O_REOPEN: o.b = r.chance(0.5); break;
